@@ -3,9 +3,14 @@
    (all interleavings of the driver, the servers, the shutdown runner and the waiting Shutdown callers; Shutdown requested
    at every moment through every receiver; every consumer outcome; endpoints occupied by the driver or by the other
    incarnation) keeps the HISTORY of emitted events inside the statement: StatementHolds = every clause of OtlpLifeObs.tla
-   on the newest events of the history in every state (the clauses only look backwards).  The history is part of the
-   state (no VIEW: the clauses read it), so the bounds are on its length and on what the driver does; the ACTION_CONSTRAINTs
-   below spend the bounds on one aspect at a time (runs "life", "serve", "restart" of checks/E11.py).
+   on the newest events of the history in every state (the clauses only look backwards).  The history is a variable,
+   but two states are the same for the search (VIEW) when they agree on the model's variables (incl. the events just
+   emitted) and on Summ(hist) = everything of the past a clause can ever refer to: which incarnations had Start called /
+   returned nil / returned an error / Shutdown called / returned, which endpoints the driver holds, the signals
+   registered per incarnation, and per request its protocol, signal, the incarnations that ran when it was sent, the
+   consumers that got it, how often, and what they returned.  The bounds are on the length of the history and on what
+   the driver does; the ACTION_CONSTRAINTs below spend them on one aspect at a time (runs "life", "serve", "restart" of
+   checks/E11.py).
    Variant # "real": the WRONG designs must be refuted (checks/E11.py requires the violation). *)
 EXTENDS OtlpLifecycle, OtlpLifeObs, TLC
 
@@ -55,6 +60,24 @@ LifeOrder == (emit' # <<>> /\ emit'[1].e = "create" /\ emit'[1].sig = "metrics")
 ServeOrder == /\ LifeOrder
               /\ (emit' # <<>> /\ emit'[1].e \in {"create", "startcall"} /\ emit'[1].g = 1) => \A r \in Reqs : req[r].st = "idle"
               /\ (emit' # <<>> /\ emit'[1].e = "send") => phase[1] \notin {"none", "created"}
+
+\* what the clauses can read of the past (see the header)
+Summ(h) ==
+  LET n == Len(h) + 1 IN
+  [sc   |-> {g \in G : StartCalls(h, g, n) # {}},
+   ok   |-> {g \in G : StartedOK(h, g, n)},
+   er   |-> {g \in G : StartRets(h, g, n) # {} /\ ~StartedOK(h, g, n)},
+   sdc  |-> {g \in G : SdCalled(h, g, n)},
+   sdr  |-> {g \in G : SdReturned(h, g, n)},
+   held |-> {p \in Ports : Held(h, p, n)},
+   rg   |-> [g \in G |-> Reg(h, g, n)],
+   rq   |-> [r \in Reqs |-> IF \E k \in Before(h, "send", n) : h[k].r = r
+                            THEN LET s == SendOf(h, r, n) IN
+                                 <<h[s].tr, h[s].sig, {g \in G : StartedOK(h, g, s)}, {g \in G : SdCalled(h, g, s)},
+                                   {h[k].g : k \in Consumes(h, r, n)}, Cardinality(Consumes(h, r, n)),
+                                   {h[k].ok : k \in ConsRets(h, r, n)}>>
+                            ELSE <<>>]]
+View == <<mvars, Summ(hist), Len(hist)>>
 
 \* THE STATEMENT on every reachable history (newest events)
 StatementHolds ==
